@@ -41,6 +41,9 @@ struct Sink {
     stale: bool,
     /// an injected panic fired earlier in this sequence: from then on only C16's own promises are monitored
     after_panic: bool,
+    /// an iterator was forgotten earlier in this sequence: ownership / structure failures from then on
+    /// are C17's business as well
+    after_forget: bool,
     failures: usize,
 }
 
@@ -113,6 +116,7 @@ impl Sink {
             may_leak: false,
             stale: false,
             after_panic: false,
+            after_forget: false,
             failures: 0,
         };
         let p = exec::params_line();
@@ -138,6 +142,7 @@ impl Sink {
         self.may_leak = false;
         self.stale = false;
         self.after_panic = false;
+        self.after_forget = false;
         self.stats.seqs += 1;
         *self.stats.hashers.entry(hkind.name().to_owned()).or_default() += 1;
         let l = format!("# seq {} hasher={} {}", self.seq_no, hkind.name(), what);
@@ -289,6 +294,14 @@ impl Sink {
             self.after_panic = true;
             fails.extend(monitors::check_panic(&o));
         }
+        if let Op::On { op: OpKind::It { forget: true, .. }, .. } = &line.op {
+            self.after_forget = true;
+        }
+        if self.after_forget {
+            let extra: Vec<monitors::Fail> = fails.iter().filter(|f| f.prop == "C06" || f.prop == "C07")
+                .map(|f| monitors::Fail { prop: "C17", msg: f.msg.clone() }).collect();
+            fails.extend(extra);
+        }
         if self.after_panic {
             // C16: the cache stays usable — no double drop / use after free (token table, C06 → C16),
             // traversals mirror and agree with lookups (hook walk, C07 → C16), current_size equals the
@@ -356,6 +369,12 @@ impl Sink {
         for m in viol {
             self.failures += 1;
             writeln!(self.mon, "FAIL C06 line={} seq={} start={} :: {}", self.line_no - 1, self.seq_no, self.seq_start_line, m).unwrap();
+            if self.after_forget {
+                writeln!(self.mon, "FAIL C17 line={} seq={} start={} :: {}", self.line_no - 1, self.seq_no, self.seq_start_line, m).unwrap();
+            }
+            if self.after_panic {
+                writeln!(self.mon, "FAIL C16 line={} seq={} start={} :: {}", self.line_no - 1, self.seq_no, self.seq_start_line, m).unwrap();
+            }
         }
         if !live.is_empty() && !self.may_leak {
             self.failures += 1;
